@@ -46,6 +46,7 @@ Definition prop (c : case) : bool :=
   forallb (fun p => olist_eqb (lookup_list (fst p) (c_items c)) (snd p)) (c_probe_list c) &&
   forallb (fun p => Bool.eqb (has_key (fst p) (c_items c)) (snd p)) (c_probe_flag c) &&
   (* schema and query paths are resolved against the consumer crate's manifest directory *)
-  forallb (fun p => String.eqb (snd p) "manifest") (c_paths c).
+  (* ... and the real macro, compiled and run, applies every option written in the attribute *)
+  forallb (fun p => String.eqb (snd p) "manifest" || String.eqb (snd p) "applied") (c_paths c).
 
 Definition wellformed (c : case) : bool := nodup_str (map key (c_items c)).
